@@ -295,4 +295,40 @@ theorem c22_decode_panic_iff (v : Nat) (data : Bytes) : decodeFrame v data = .pa
 
 example : decodeFrame 6 [] = .panic := rfl
 
+/-! ## what `decodeLength` can return on arbitrary bytes -/
+
+theorem decLenF_bounds : ∀ (k m off acc : Nat) (data : Bytes) (val cnt : Nat),
+    decLenF k m off acc data = some (val, cnt) →
+    off + 1 ≤ cnt ∧ cnt ≤ off + k + 1 ∧ cnt ≤ off + data.length + 1 := by
+  intro k
+  induction k with
+  | zero =>
+    intro m off acc data val cnt h
+    simp only [decLenF, Option.some.injEq, Prod.mk.injEq] at h
+    omega
+  | succ k ih =>
+    intro m off acc data val cnt h
+    cases data with
+    | nil => simp [decLenF] at h
+    | cons d rest =>
+      simp only [decLenF] at h
+      split at h
+      · simp only [Option.some.injEq, Prod.mk.injEq] at h
+        simp only [List.length_cons]; omega
+      · have := ih _ _ _ rest val cnt h
+        simp only [List.length_cons]; omega
+
+/-- **`decodeLength` never over-reads** (the `dlen` judge clause `viol:varint-overread` as a
+    theorem): for ARBITRARY bytes, a decoded remaining-length claims between 1 and 5
+    bytes, and at most one byte more than it was given — the one case being four
+    continuation bytes, where the code reports 5 without reading a fifth (§8.6); the
+    `len(data) < msgLen` check of `DecodeFrame` then keeps that from becoming an over-read
+    (`c22_decode_bounds`). -/
+theorem c22_varint_decode_bounds (data : Bytes) (rl c : Nat) (h : decLen data = some (rl, c)) :
+    1 ≤ c ∧ c ≤ 5 ∧ c ≤ data.length + 1 := by
+  have := decLenF_bounds 4 0 0 0 data rl c h
+  omega
+
+example : decLen [0x80, 0x80, 0x80, 0x80] = some (0, 5) := by decide
+
 end WK.C22
